@@ -769,10 +769,7 @@ class file_archive(archive):
             "failed to populate file for %s" % str(filename)
         # move the results to the proper place
         try:
-            os.remove(filename)
-        except: pass
-        try:
-            os.renames(_filename, filename)
+            os.replace(_filename, filename)
         except OSError:
             "error in populating %s" % str(filename)
         return
@@ -1850,10 +1847,7 @@ if hdf:
           if not new: return
           # move the results to the proper place
           try:
-              os.remove(filename)
-          except: pass
-          try:
-              os.renames(_filename, filename)
+              os.replace(_filename, filename)
           except OSError:
               "error in populating %s" % str(filename)
           return
